@@ -508,6 +508,14 @@ def _shared_pass(args):
             bad, _ = replay_decode(beh, decoder=dec)
         if bad is None and 'encode' in mode and not beh['cmp']:
             bad, _ = replay_encode(beh, encoder=enc, canonical=True)
+        if bad is None and 'roundtrip' in mode:
+            # C03 through shared objects: what the one Encoder wrote, read by the one Decoder, is the data handed over
+            bad, msg = replay_encode(beh, encoder=enc, canonical=not beh['cmp'])
+            if bad is None:
+                try:
+                    bad = compare_decoded(beh, dec.process(bytes(msg.serialized_bytes)), what='round-trip')
+                except Exception as e:
+                    bad = (('round-trip', 'exception', type(e).__name__, ''), 'decoding what the encoder wrote raised %r' % (e,))
         out.append(bad)
     return out
 
